@@ -372,7 +372,11 @@ func genRequest(r *vlib.Rand, id string) *rawReq {
 			desc = "amp path malformed"
 		}
 	}
-	switch r.Intn(6) {
+	switch r.Intn(7) {
+	case 6:
+		// nothing but what a JSON reader skips
+		ws := r.PickString([]string{" ", "\n", "\r\n", "\t", " \t\r\n ", "\n\n\n\n", strings.Repeat(" ", 100), strings.Repeat(" \n", 3000)})
+		body, desc = []byte(ws), fmt.Sprintf("white space only (%d bytes)", len(ws))
 	case 0:
 		body, desc = mutate(r, body), "mutated "+desc
 	case 1:
